@@ -396,7 +396,7 @@ pub fn run_property(prop: &dyn Property, opts: &RunOpts, golden: &[Vec<u16>]) ->
                     },
                     rng,
                 );
-                let strat = proptest::collection::vec(proptest::num::u16::ANY, 0..=prop.max_tape());
+                let strat = proptest::collection::vec(proptest::num::u16::ANY, prop.max_tape() / 3..=prop.max_tape());
                 let goldens: Vec<Vec<u16>> = if w == 0 { golden.to_vec() } else { vec![] };
                 let mut gi = 0usize;
                 let mut i = 0u64;
